@@ -94,7 +94,7 @@ pub fn drive_interleave(out: &mut dyn std::io::Write, seed: u64, thorough: bool)
                         let rf = { let mut h = hashes::make_hash(&s.alg, s.n); h.upd(&s.msg); h.fin() };
                         k += 1;
                         Ev::new(k, "ref").s("alg", &s.alg).i("n", hashes::out_size(&s.alg, s.n) as i64).bytes("msg", &s.msg).bytes("out", &rf).s("res", "ok").emit(out);
-                        let o = s.h.fin_reset();
+                        let o = s.h.fin_reset_how(k);
                         s.msg.clear();
                         k += 1;
                         Ev::new(k, "finreset").i("i", id as i64).bytes("out", &o).s("res", "ok").emit(out);
